@@ -18,7 +18,12 @@ func VH_C17_universal_time() {
 	q := int(vrt.I8("q"))
 	vrt.Assume(yy <= 99 && mo >= 1 && mo <= 12 && d >= 1 && d <= 28 && h <= 23 && mi <= 59 && s <= 59 && q >= -79 && q <= 79)
 	off := q * 900
-	t := time.Date(2000+yy, time.Month(mo), d, h, mi, s, 0, time.FixedZone("zone", off))
+	// daylight saving in effect or not: the offset in effect (standard + 1 h when DST) is what the octet carries
+	dst := vrt.Bool("dst")
+	if dst {
+		vrt.Assume(q-4 >= -79) // the standard-time offset must itself be expressible
+	}
+	t := time.Date(2000+yy, time.Month(mo), d, h, mi, s, 0, vrt.ZoneDST(off, dst))
 	n := EncodeUniversalTimeAndLocalTimeZoneToNas(t)
 	back := DecodeUniversalTimeAndLocalTimeZone(n)
 	vrt.Assert(back.Year() == 2000+yy && int(back.Month()) == mo && back.Day() == d, "universal time: date round-trips")
